@@ -87,12 +87,12 @@ Lemma get_path_deref rows row t n sf i t' p r :
   get_path rows (ORow row) (t :: t' :: p) = get_path rows (ORow r) (t' :: p).
 Proof. intros H F. cbn [get_path]. rewrite H, F. reflexivity. Qed.
 Lemma get_path_through_scalar rows row t v t' p :
-  assoc t row = Some v -> (forall n sf i, v <> FRef n sf i) -> (forall d, v <> FDict d) ->
+  assoc t row = Some v -> (forall n sf i, v <> FRef n sf i) -> (forall d i, v <> FDict d i) ->
   get_path rows (ORow row) (t :: t' :: p) = None.
 Proof.
-  intros H Hr Hd. cbn [get_path]. rewrite H. destruct v as [|s i|n sf i|d|i]; try reflexivity.
+  intros H Hr Hd. cbn [get_path]. rewrite H. destruct v as [|s i|n sf i|d i|i]; try reflexivity.
   - exfalso. exact (Hr n sf i eq_refl).
-  - exfalso. exact (Hd d eq_refl).
+  - exfalso. exact (Hd d i eq_refl).
 Qed.
 
 (* ================================================================== C12: literals are data, never code *)
